@@ -125,14 +125,30 @@ def real_name(s, bind):
     return bind[s][0] if s in ('A', 'B') else (MULTI if s == 'M' else OBJ)
 
 
-def replay_history(hist, exp_cfg, exp_eff, exp_last, bind):
-    """returns list of failure strings"""
+def spec_copy():
+    """a different-but-equal instance of the settings spec, as a second
+    process gets it (the spec is shipped by pickle and re-derived after DDL)"""
+    st = S()
+    if 'spec2' not in st:
+        import pickle
+        st['spec2'] = pickle.loads(pickle.dumps(st['spec']))
+    return st['spec2']
+
+
+def replay_history(hist, exp_cfg, exp_eff, exp_last, bind, reload_at=None):
+    """returns list of failure strings.  With reload_at=k the stored maps are
+    persisted as JSON after k operations and loaded back by a "second
+    process" (its own spec instance) before the history continues."""
     st = S()
     cfg, spec = st['config'], st['spec']
     maps = {sc: st['immutables'].Map() for sc in SCOPES}
     bad = []
     last = 'ok'
-    for op in hist:
+    for i, op in enumerate(hist):
+        if reload_at is not None and i == reload_at:
+            spec2 = spec_copy()
+            maps = {sc: cfg.from_json(spec2, cfg.to_json(spec, m))
+                    for sc, m in maps.items()}
         rop = real_op(op, bind)
         before = dict(maps)
         sc = op[1]
@@ -265,6 +281,16 @@ def _job(args):
             if do_json:
                 bad += json_roundtrip(maps)
             n += 1
+            # persist-and-continue: reload before the last operation and
+            # (when different) in the middle of the history
+            for k in sorted({len(hist) - 1, len(hist) // 2} - {-1}):
+                if not hist:
+                    break
+                b2, _ = replay_history(hist, cfgm, eff, last, binds[bi],
+                                       reload_at=k)
+                bad += [f'[stored maps reloaded from JSON by a second spec '
+                        f'instance after {k} operations] {x}' for x in b2]
+                n += 1
             if bad:
                 out.append(dict(history=[list(map(_js, o)) for o in hist],
                                 binding=bi, failed=bad[:4]))
